@@ -279,6 +279,116 @@ fn judge_connect_roles<K: Kit>(
     (v, c)
 }
 
+/// C16 over *one* `solve` call of many iterations (the single-stepped traces start a new call
+/// for every iteration, so anything a planner carries from one iteration to the next inside a
+/// call - an adapted step size, a cached choice - is invisible to them). Without snapshots in
+/// between, the rule is checked existentially: the nodes of the final tree, in insertion order,
+/// must be explainable by the samples the call drew, in order - node i is the sample itself or
+/// the one-step point from a nearest node among its predecessors, for some sample drawn after
+/// the one that explains node i-1 (RRT-Connect: or the connect step towards the node the other
+/// tree received for the same sample). Sound whatever an iteration looks like inside.
+fn batch_case<K: Kit>(prop: StepProp, ctx: &Ctx, b: &mut Batch, kit: &K, case: &StepCase) {
+    crate::watch::set_case(case.to_json());
+    oxmpl::verif::arm(0);
+    let Ok(mut d) = Drv::new(kit, &case.params, 0.0) else { return };
+    d.log.borrow_mut().budget = 400_000;
+    let seq: Vec<Vec<f64>> = case.script.iter().map(|&li| case.letters[li].clone()).collect();
+    let Ok(inst) = d.install(&case.problem, SampleMode::Scripted(seq.clone())) else { return };
+    if d.setup(inst) != Res::Done {
+        return;
+    }
+    let Ok(eval) = WorldEval::<K>::new(kit, &case.problem.world) else { return };
+    let snap0 = d.snapshot();
+    let mark = d.log.borrow().recs.len();
+    let res = d.solve_iters(seq.len() as u64);
+    if matches!(res, Res::Panic { .. } | Res::Budget) {
+        return;
+    }
+    if prop == StepProp::C15 || prop == StepProp::C17 {
+        // the structure oracle of the stepped traces, applied to the tree one long call leaves
+        let recs = d.log.borrow().recs.clone();
+        let setup_goal_samples = recs[..mark].iter().filter_map(|r| if let Ev::GoalSample(f) = &r.ev { Some(f.clone()) } else { None }).collect();
+        let tr = Trace { world: case.problem.world.clone(), recs, snaps: vec![snap0, d.snapshot()], steps: vec![], setup_goal_samples };
+        b.count("batch_solves", 1);
+        b.count("batch_tree_nodes", d.snapshot().size() as u64);
+        judge_trace::<K>(prop, ctx, b, kit, case, &d, &tr);
+        return;
+    }
+    let samples: Vec<Vec<f64>> = d.log.borrow().recs[mark..].iter().filter_map(|r| match &r.ev {
+        Ev::Uniform(f) | Ev::GoalSample(f) => Some(f.clone()),
+        _ => None,
+    }).collect();
+    let j = J { ctx, kit, sp: &eval.sp, case, prop: StepProp::C16 };
+    let step = case.params.max_distance;
+    b.evaluations += 1;
+    b.count("batch_solves", 1);
+    b.count("batch_samples", samples.len() as u64);
+    let explained = |prefix: &[TNode], target: &[f64], x: &[f64]| -> bool { !steer_sources(&j, prefix, target, x, step).1.is_empty() };
+    let mut fail: Option<String> = None;
+    match d.snapshot() {
+        Snap::Tree(t) => {
+            let mut k = 0usize;
+            for i in 1..t.len() {
+                match (k..samples.len()).find(|s| explained(&t[..i], &samples[*s], &t[i].s)) {
+                    Some(s) => {
+                        k = s + 1;
+                        b.count("batch_nodes_explained", 1);
+                    }
+                    None => {
+                        fail = Some(format!("node {i} = {:?} of {} is neither a sample nor the one-step point from a nearest earlier node towards any of the samples {}..{} of the call", t[i].s, t.len(), k, samples.len()));
+                        break;
+                    }
+                }
+            }
+        }
+        Snap::Trees(a, g) => {
+            // depth-first over (sample index, nodes of the start tree explained, of the goal tree)
+            let mut dead: std::collections::HashSet<(usize, usize, usize)> = std::collections::HashSet::new();
+            let mut stack = vec![(0usize, 1usize.min(a.len()), 1usize.min(g.len()))];
+            let mut best = (0usize, 0usize);
+            let mut done = a.len() <= 1 && g.len() <= 1;
+            while let Some((s, ia, ig)) = stack.pop() {
+                if ia >= a.len() && ig >= g.len() {
+                    done = true;
+                    break;
+                }
+                if ia + ig > best.0 + best.1 {
+                    best = (ia, ig);
+                }
+                if s >= samples.len() || !dead.insert((s, ia, ig)) {
+                    continue;
+                }
+                let q = &samples[s];
+                stack.push((s + 1, ia, ig));
+                if ia < a.len() && explained(&a[..ia], q, &a[ia].s) {
+                    stack.push((s + 1, ia + 1, ig));
+                    if ig < g.len() && explained(&g[..ig], &a[ia].s, &g[ig].s) {
+                        stack.push((s + 1, ia + 1, ig + 1));
+                    }
+                }
+                if ig < g.len() && explained(&g[..ig], q, &g[ig].s) {
+                    stack.push((s + 1, ia, ig + 1));
+                    if ia < a.len() && explained(&a[..ia], &g[ig].s, &a[ia].s) {
+                        stack.push((s + 1, ia + 1, ig + 1));
+                    }
+                }
+            }
+            if done {
+                b.count("batch_nodes_explained", (a.len() + g.len()).saturating_sub(2) as u64);
+            } else {
+                fail = Some(format!("the trees ({} / {} nodes) cannot be explained by the {} samples of the call: at best {} / {} nodes are extensions towards a sample or connect steps towards the other tree's new node", a.len(), g.len(), samples.len(), best.0, best.1));
+            }
+        }
+        _ => {}
+    }
+    if let Some(detail) = fail {
+        let mut v = case.to_json();
+        v["property"] = json!("C16");
+        v["batch"] = json!(true);
+        ctx.violate(&format!("tree-not-explained-by-the-samples-of-one-call:{}", case.params.kind.name()), detail, v);
+    }
+}
+
 fn step_queries(events: &[Rec]) -> (usize, usize) {
     let mut acc = 0;
     let mut rej = 0;
@@ -721,6 +831,9 @@ pub fn run(prop: StepProp, tier: Tier, seed: u64) -> i32 {
             let case = make_case(&mut r, i, prop, None);
             run_case(prop, &ctx, &mut b, &case);
             b.count("random_script_cases", 1);
+            if case.resetup.is_none() && case.step_from.is_none() {
+                with_kit!(case.problem.spec, K, kit => batch_case::<K>(prop, &ctx, &mut b, &kit, &case));
+            }
             i += shards;
         }
         // exhaustive depth-<=4 scripts over a 6-letter alphabet on a few worlds
@@ -748,14 +861,16 @@ pub fn run(prop: StepProp, tier: Tier, seed: u64) -> i32 {
         StepProp::C15 => {
             ctx.require("edges_checked");
             ctx.require("zero_length_edges");
-            "cases = single-stepped iterations of RRT / RRT-Connect / RRT* driven by scripted samples over alphabets with duplicates, seam / antipodal states and obstacle-boundary points (random scripts of 8-68 steps, plus all scripts up to depth 4 over a 6-letter alphabet on several worlds); after every step the snapshot is checked for structure (parents in range, single root = start / goal sample, acyclic by bounded walk), node validity, edge length and motion-check coverage of every new edge; distinct+non-trivial = distinct snapshot hashes"
+            ctx.require("batch_tree_nodes");
+            "cases = single-stepped iterations of RRT / RRT-Connect / RRT* driven by scripted samples over alphabets with duplicates, seam / antipodal states and obstacle-boundary points (random scripts of 8-68 steps, plus all scripts up to depth 4 over a 6-letter alphabet on several worlds); after every step the snapshot is checked for structure (parents in range, single root = start / goal sample, acyclic by bounded walk), node validity, edge length and motion-check coverage of every new edge; the same on the trees that single solve calls of 8-68 iterations leave behind; distinct+non-trivial = distinct snapshot hashes"
         }
         StepProp::C16 => {
             ctx.require("connect_extensions");
             ctx.require("connect_solutions");
             ctx.require("extension_truncated_to_step");
             ctx.require("extension_reached_sample");
-            "cases = transitions (snapshot before, logged sample, snapshot after) of single-stepped planners as for C15; each transition is checked against the nearest-node / one-step rule (existential over tied nearest nodes), at-most-one-node-per-tree, rejection only when a query was rejected, RRT-Connect tree balance and connect step; distinct+non-trivial = distinct snapshot hashes"
+            ctx.require("batch_nodes_explained");
+            "cases = transitions (snapshot before, logged sample, snapshot after) of single-stepped planners as for C15; each transition is checked against the nearest-node / one-step rule (existential over tied nearest nodes), at-most-one-node-per-tree, rejection only when a query was rejected, RRT-Connect tree balance and connect step; plus whole solve calls of 8-68 iterations whose final trees must be explainable, node by node in insertion order, by the samples the call drew (existential; covers state carried between the iterations of one call); distinct+non-trivial = distinct snapshot hashes"
         }
         StepProp::C17 => {
             ctx.require("star_rewire_events");
